@@ -24,7 +24,7 @@ static u64 run_seed(u64 base, const std::string& prop, u64 r) { return mix64(mix
 struct Cfg {
     std::string cmd, prop, plan_path, out_path, data_dir, outdir = ".";
     u64 seed = 0; long runs = 100; int worker = 0, nworkers = 1; double budget_s = 0; bool twice = false; bool keep_log = false;
-    bool w2 = false; int variant_base = 0; bool enumerate = true; bool fills = true; long start = 0; int tag = -1;
+    bool w2 = false; int variant_base = 0; bool enumerate = true; bool fills = true; long start = 0; int tag = -1; bool fresh = false;
 };
 
 static RunOpts opts_for(const Plan& p, const Cfg& c, u64 sseed) {
@@ -258,6 +258,7 @@ int main(int argc, char** argv) {
         else if (a == "--budget") c.budget_s = atof(val().c_str()); else if (a == "--twice") c.twice = true; else if (a == "--log") c.keep_log = true;
         else if (a == "--plan") c.plan_path = val(); else if (a == "--out") c.out_path = val(); else if (a == "--data") c.data_dir = val(); else if (a == "--outdir") c.outdir = val();
         else if (a == "--tag") c.tag = atoi(val().c_str());
+        else if (a == "--fresh") c.fresh = true;
         else if (a == "--no-enumerate") c.enumerate = false; else if (a == "--no-fills") c.fills = false;
         else { fprintf(stderr, "unknown argument %s\n", a.c_str()); return 3; }
     }
@@ -266,7 +267,7 @@ int main(int argc, char** argv) {
 
     if (c.cmd == "gen") {
         u64 rs = run_seed(c.seed, c.prop, (u64)c.start);
-        Plan p = gen::make(c.prop, rs, (int)(c.start % 1000000));
+        Plan p = gen::make(c.prop, rs, (int)(c.start % 1000000), c.fresh);
         fputs(p.text().c_str(), stdout);
         return 0;
     }
@@ -326,7 +327,8 @@ int main(int argc, char** argv) {
     for (long r = c.start + c.worker; r < c.start + c.runs; r += c.nworkers) {
         if (c.budget_s > 0 && now_s() - t0 > c.budget_s) break;
         u64 rs = run_seed(c.seed, c.prop, (u64)r);
-        Plan p = gen::make(c.prop, rs, (int)(r % 1000000));
+        if (c.fresh && done > 0) break;      // a fresh plan is the first and only run of its process
+        Plan p = gen::make(c.prop, rs, (int)(r % 1000000), c.fresh);
         printf("START %ld\n", r); fflush(stdout);
         alarm(20);         // uninstrumented builds have no step budget: a call that never returns ends the worker, the driver replays the run
         u64 lh = 0; bool nt = false; int ops_run = 0;
